@@ -9,6 +9,7 @@ arbitrary commutative ring (ℤ, ℚ, ℝ, ℂ, …).
 -/
 import OdlModel.Lemmas.ResizeSpec
 import OdlModel.Lemmas.ResizeOp
+import OdlModel.Lemmas.ResizeLin
 import Mathlib.Tactic.FieldSimp
 
 set_option linter.unusedVariables false
@@ -129,18 +130,39 @@ theorem C16.adjoint_transpose (mode : Mode) (n m off : Nat) (x y : Nat → K)
   exact ⟨_, _, (ok_iff ..).2 ⟨hg.1.2 h, rfl⟩, (ok_iff ..).2 ⟨hg.2.2 h, rfl⟩,
     core_transpose mode n m off h x y⟩
 
+/-- **All variants are linear except constant padding with a non-zero constant.**  With
+`pad_const = 0`, in every mode and direction and for all sizes and offsets, each entry of the
+result is one fixed finite linear combination `Σ_t a_t · x_{j_t}` of entries of the input
+(`ResizingOperator.is_linear`). -/
+theorem C16.linear_when_padconst_zero (mode : Mode) (dir : Dir) (n m off : Nat) (i : Nat) :
+    ∃ l : List (K × Nat), ∀ x : Nat → K,
+      resizeCore mode dir n m off (0 : K) x i = (l.map (fun p => p.1 * x p.2)).sum :=
+  LinArr.resizeCore mode dir n m off i
+
+/-- … and constant padding with `c ≠ 0` is not: the zero array is not mapped to zero. -/
+example : ∃ r, resize1d .constant .forward 1 2 0 (5 : Int) (fun _ => 0) = .ok r ∧ r 1 = 5 :=
+  ⟨_, rfl, by decide⟩
+
+/-- **The order of the axes is irrelevant** (`pad_const = 0`, either direction, any mode, any
+shapes and offsets): running the one-axis steps from axis 0 upwards — the order of the loop in
+`_apply_padding` — and running them from the last axis downwards give the same array.  Every
+one-axis step is a fixed finite linear combination of entries of its fibre, and such maps along
+different axes commute. -/
+theorem C16.axis_order_irrelevant (mode : Mode) (dir : Dir) (sIn sOut offs : List Nat)
+    (X : List Nat → K) :
+    resizeAxes mode dir (0 : K) 0 sIn sOut offs X = resizeAxesRev mode dir (0 : K) 0 sIn sOut offs X :=
+  resizeAxes_eq_rev mode dir sIn sOut offs 0 X
+
 /-- **Forward and adjoint are transposes, any number of axes**, growing in some axes while
-shrinking in others: with the one-axis maps composed along the axes (forward: axis 0 first,
-adjoint: last axis first),
+shrinking in others, both in the code's axis order (axis 0 first):
 `Σ_{idx ∈ box(sOut)} Y_idx (R X)_idx = Σ_{idx ∈ box(sIn)} X_idx (Rᵀ Y)_idx`
-for all admissible shapes/offsets and all contents.  (The code's adjoint also runs axis 0
-first; that both orders give the same array — one-axis maps along different axes commute — is
-compared with the real code in the correspondence run and is not part of this statement.) -/
+for all admissible shapes/offsets and all contents. -/
 theorem C16.adjoint_transpose_nd (mode : Mode) (sIn sOut offs : List Nat)
     (h : AdmissibleND mode sIn sOut offs) (X Y : List Nat → K) :
     sumBox sOut (fun idx => Y idx * resizeAxes mode .forward (0 : K) 0 sIn sOut offs X idx) =
-      sumBox sIn (fun idx => X idx * resizeAxesRev mode .adjoint (0 : K) 0 sOut sIn offs Y idx) :=
-  axes_transpose mode sIn sOut offs [] h X Y
+      sumBox sIn (fun idx => X idx * resizeAxes mode .adjoint (0 : K) 0 sOut sIn offs Y idx) := by
+  rw [C16.axis_order_irrelevant mode .adjoint sOut sIn offs Y]
+  exact axes_transpose mode sIn sOut offs [] h X Y
 
 /-- The per-axis part of the n-d argument check accepts iff every axis is admissible. -/
 theorem C16.nd_axes_accept_iff (mode : Mode) (c : K) :
